@@ -1602,9 +1602,11 @@ impl<'a, K: Hash + Eq, V, E: OnEvictCallback, S: BuildHasher> IntoIterator
 
 impl<K: Hash + Eq, V> FromIterator<(K, V)> for RawLRU<K, V> {
     fn from_iter<T: IntoIterator<Item = (K, V)>>(iter: T) -> Self {
-        let iter = iter.into_iter();
-        let mut this = Self::new(iter.size_hint().0).unwrap();
-        iter.for_each(|(k, v)| {
+        // size the cache from the collected items (never 0): `size_hint().0` is only a lower
+        // bound and is 0 for an empty or filtered iterator, which `new` rejects
+        let items: Vec<(K, V)> = iter.into_iter().collect();
+        let mut this = Self::new(items.len().max(1)).unwrap();
+        items.into_iter().for_each(|(k, v)| {
             this.put(k, v);
         });
         this
